@@ -14,7 +14,7 @@ variable (H : Int → Int) (T : Tag → Int)
 /-! ### helper lemmas: what one pass of the loop may do to the state -/
 
 /-- the configuration fields agree -/
-structure Cfg (p q : Party) : Prop where
+structure SameCfg (p q : Party) : Prop where
   ID : q.ID = p.ID
   fifo : q.fifo = p.fifo
   n : q.n = p.n
@@ -22,18 +22,18 @@ structure Cfg (p q : Party) : Prop where
   j : q.j = p.j
   fifoSkip : q.fifoSkip = p.fifoSkip
 
-theorem Cfg.refl (p : Party) : Cfg p p := ⟨rfl, rfl, rfl, rfl, rfl, rfl⟩
+theorem SameCfg.refl (p : Party) : SameCfg p p := ⟨rfl, rfl, rfl, rfl, rfl, rfl⟩
 
-theorem Cfg.trans {p q r : Party} (h1 : Cfg p q) (h2 : Cfg q r) : Cfg p r :=
+theorem SameCfg.trans {p q r : Party} (h1 : SameCfg p q) (h2 : SameCfg q r) : SameCfg p r :=
   ⟨h2.ID.trans h1.ID, h2.fifo.trans h1.fifo, h2.n.trans h1.n, h2.t.trans h1.t, h2.j.trans h1.j,
    h2.fifoSkip.trans h1.fifoSkip⟩
 
 /-- same configuration and same counters -/
-def Same (p q : Party) : Prop := Cfg p q ∧ q.deliverS = p.deliverS
+def Same (p q : Party) : Prop := SameCfg p q ∧ q.deliverS = p.deliverS
 
 /-- what one pass may do: nothing to the counters (and no delivery), or one well-formed delivery -/
 def Spec (p : Party) (r : Result) : Prop :=
-  Cfg p r.party ∧
+  SameCfg p r.party ∧
   ((r.party.deliverS = p.deliverS ∧ ∀ who m, r.out ≠ .delivered who m) ∨
    (∃ (msg : Msg) (m : Int), msg.id = p.ID ∧ (p.fifo = true → msg.seq = p.dS msg.sender.toNat) ∧
       aGet r.party.mbar msg.tag = some m ∧ r.out = .delivered msg.sender.toNat m ∧
@@ -62,7 +62,7 @@ theorem spec_dob (p : Party) (msg : Msg) (s : Sent) : Spec p (deliverOrBuffer p 
   split
   · rename_i hc
     split
-    · exact ⟨Cfg.refl p, Or.inl ⟨rfl, fun _ _ hh => by cases hh⟩⟩
+    · exact ⟨SameCfg.refl p, Or.inl ⟨rfl, fun _ _ hh => by cases hh⟩⟩
     · rename_i m hm
       refine ⟨⟨rfl, rfl, rfl, rfl, rfl, rfl⟩, Or.inr ⟨msg, m, hc.1, ?_, hm, rfl, rfl⟩⟩
       intro hf
@@ -111,7 +111,7 @@ theorem dispatch_spec (p : Party) (sent0 : Sent) (l : Nat) (msg : Msg) :
 
 end
 
-theorem findFirst_some {α} (q : α → Bool) : ∀ (l : List α) (x : α) (r : List α),
+theorem findFirst_some_loc {α} (q : α → Bool) : ∀ (l : List α) (x : α) (r : List α),
     findFirst q l = some (x, r) → q x = true
   | [], x, r, h => by simp [findFirst] at h
   | y :: ys, x, r, h => by
@@ -124,17 +124,17 @@ theorem findFirst_some {α} (q : α → Bool) : ∀ (l : List α) (x : α) (r : 
       · cases h
       · rename_i y' r' heq
         simp only [Option.some.injEq, Prod.mk.injEq] at h
-        exact h.1 ▸ findFirst_some q ys y' r' heq
+        exact h.1 ▸ findFirst_some_loc q ys y' r' heq
 
 theorem phaseBuffer_inl (p : Party) (r : Result) (h : phaseBuffer p = .inl r) : Spec p r := by
   unfold phaseBuffer at h
   split at h
   · rename_i e rest hf
-    have hd := findFirst_some _ _ _ _ hf
+    have hd := findFirst_some_loc _ _ _ _ hf
     simp only [deliverable, Bool.and_eq_true, Bool.or_eq_true, Bool.not_eq_true', decide_eq_true_eq] at hd
     split at h
     · cases h
-      exact ⟨Cfg.refl p, Or.inl ⟨rfl, fun _ _ hh => by cases hh⟩⟩
+      exact ⟨SameCfg.refl p, Or.inl ⟨rfl, fun _ _ hh => by cases hh⟩⟩
     · rename_i m hm
       cases h
       refine ⟨⟨rfl, rfl, rfl, rfl, rfl, rfl⟩, Or.inr ⟨e, m, hd.1, ?_, hm, rfl, rfl⟩⟩
@@ -145,7 +145,7 @@ theorem phaseBuffer_inl (p : Party) (r : Result) (h : phaseBuffer p = .inl r) : 
   · cases h
 
 theorem phaseBuffer_inr (p p1 : Party) (sent : Sent) (h : phaseBuffer p = .inr (p1, sent)) :
-    Cfg p p1 ∧ ((p.fifo = true → p.fifoSkip = 0) → p1.deliverS = p.deliverS) := by
+    SameCfg p p1 ∧ ((p.fifo = true → p.fifoSkip = 0) → p1.deliverS = p.deliverS) := by
   unfold phaseBuffer at h
   split at h
   · split at h <;> cases h
@@ -160,7 +160,7 @@ theorem phaseBuffer_inr (p p1 : Party) (sent : Sent) (h : phaseBuffer p = .inr (
     simp only [hc, if_false]
 
 theorem step_cfg (p : Party) (pi : List Nat) (inp : Option (Nat × Msg)) :
-    Cfg p (step H T p pi inp).party := by
+    SameCfg p (step H T p pi inp).party := by
   unfold step
   split
   · rename_i r h
@@ -170,7 +170,7 @@ theorem step_cfg (p : Party) (pi : List Nat) (inp : Option (Nat × Msg)) :
     split
     · rename_i l msg bm _
       have hd := (dispatch_spec H T { p1 with bufMsg := bm } sent l msg).1
-      have hq : Cfg p1 { p1 with bufMsg := bm } := ⟨rfl, rfl, rfl, rfl, rfl, rfl⟩
+      have hq : SameCfg p1 { p1 with bufMsg := bm } := ⟨rfl, rfl, rfl, rfl, rfl, rfl⟩
       exact hc.trans (hq.trans hd)
     · split
       · exact hc
@@ -217,11 +217,12 @@ theorem step_keeps_config (p : Party) (pi : List Nat) (inp : Option (Nat × Msg)
 /-- the state of the counterexample to `step_delivery_spec`: `n = 4`, `t = 1`, FIFO mode with
     `fifo_skip = 1`, two buffered messages of sender 0 with a gap (slots 5 and 10 while slot 1 is
     expected, so `skipAdjust` moves `deliver_s[0]` to 5), and an agreed digest for slot 1 of
-    sender 1 -/
+    sender 1 whose payload has been requested (r-request outstanding) -/
 def cexParty : Party :=
   { Party.init 4 1 2 1 with
     deliverBuf := [⟨0, 0, 5, rReady, 0⟩, ⟨0, 0, 10, rReady, 0⟩],
-    dbar := [(⟨0, 1, 1⟩, 107)] }
+    dbar := [(⟨0, 1, 1⟩, 107)],
+    awaited := [⟨0, 1, 1⟩] }
 
 /-- `step_delivery_spec` does not hold: on `cexParty` the r-answer `(0, 1, 1, 7)` from party 3
     (with `H x = x + 100`) is delivered (`delivered 1 7`) and the counters become `[5, 2, 1, 1]`,
